@@ -79,6 +79,88 @@ theorem original_order_inconsistent :
     ¬ Consistent (visible v ((appendEffsOriginal v 16).take 2)) := by
   decide
 
+/-! ### `chgstatus` and `purge` -/
+
+theorem visibleStatuses_length (v : Statuses) (effs : List (Nat × Nat)) :
+    (visibleStatuses v effs).length = v.length := by
+  unfold visibleStatuses
+  induction effs generalizing v with
+  | nil => rfl
+  | cons e t ih => simp only [List.foldl_cons]; rw [ih]; simp [applyStatus]
+
+/-- **`chgstatus`, entry by entry**: at every boundary between two status stores (hence after a kill there) the
+    number of entries is unchanged and every entry carries either its old status or the new one; nothing else
+    is written, so every listed MOC keeps its complete data (`Consistent` is about index / data only). -/
+theorem chg_prefix_old_or_new (st : Nat) (v : Statuses) (effs : List (Nat × Nat)) (hst : ∀ e ∈ effs, e.2 = st) (k : Nat) :
+    (visibleStatuses v (effs.take k)).length = v.length ∧
+    ∀ i : Nat, (visibleStatuses v (effs.take k))[i]? = v[i]? ∨ (visibleStatuses v (effs.take k))[i]? = some st := by
+  refine ⟨visibleStatuses_length _ _, ?_⟩
+  have gen : ∀ (l : List (Nat × Nat)) (w : Statuses), (∀ e ∈ l, e.2 = st) →
+      (∀ i : Nat, w[i]? = v[i]? ∨ w[i]? = some st) →
+      ∀ i : Nat, (visibleStatuses w l)[i]? = v[i]? ∨ (visibleStatuses w l)[i]? = some st := by
+    intro l
+    induction l with
+    | nil => intro w _ hw; exact hw
+    | cons e t ih =>
+      intro w hl hw
+      unfold visibleStatuses
+      simp only [List.foldl_cons]
+      apply ih (applyStatus w e) (fun x hx => hl x (List.mem_cons_of_mem _ hx))
+      intro i
+      unfold applyStatus
+      rw [List.getElem?_set]
+      split
+      · split
+        · right; rw [hl e List.mem_cons_self]
+        · rename_i h1 h2
+          left
+          have : w[i]? = none := by simp; omega
+          rcases hw i with h | h
+          · rw [← h, this]
+          · rw [this] at h; cases h
+      · exact hw i
+  exact gen (effs.take k) v (fun e he => hst e (List.mem_of_mem_take he)) (fun i => Or.inl rfl)
+
+/-- **A `chgstatus` that changes ONE entry is atomic**: every prefix of its effects shows the state before or
+    the state after. -/
+theorem chg_single_atomic (v : Statuses) (effs : List (Nat × Nat)) (h1 : effs.length ≤ 1) (k : Nat) :
+    visibleStatuses v (effs.take k) = v ∨ visibleStatuses v (effs.take k) = visibleStatuses v effs := by
+  cases effs with
+  | nil => left; simp [visibleStatuses]
+  | cons e t =>
+    have ht : t = [] := by
+      cases t with
+      | nil => rfl
+      | cons _ _ => simp at h1
+    subst ht
+    cases k with
+    | zero => left; simp [visibleStatuses]
+    | succ j => right; simp
+
+/-- **A `chgstatus` on several identifiers is NOT atomic** (the open finding): after the first of the two
+    stores of `chgstatus deprecated 2,3` the statuses are neither those before nor those after the command. -/
+theorem chg_multi_not_atomic :
+    let v : Statuses := [1, 3, 3, 3]                                  -- ids 1 (removed), 2, 3, 4 (valid)
+    let effs := chgEffs 2 [2, 3] [(1, 1), (2, 3), (3, 3), (4, 3)]
+    effs = [(1, 2), (2, 2)] ∧
+    visibleStatuses v (effs.take 1) = [1, 2, 3, 3] ∧
+    visibleStatuses v (effs.take 1) ≠ v ∧ visibleStatuses v (effs.take 1) ≠ visibleStatuses v effs := by
+  decide
+
+/-- **`purge`** writes the compacted set under a temporary name and renames it over the set: a reader opening
+    the set's name sees the old content at every boundary before the rename and the new one after it. -/
+theorem purge_atomic {α : Type} (old new : α) (k : Nat) :
+    purgeView old new (purgeEffs.take k) = old ∨ purgeView old new (purgeEffs.take k) = new := by
+  unfold purgeView
+  split
+  · exact Or.inr rfl
+  · exact Or.inl rfl
+
+theorem purge_switch_at_rename {α : Type} (old new : α) :
+    purgeView old new (purgeEffs.take 1) = old ∧ purgeView old new (purgeEffs.take 2) = new ∧
+    purgeView old new purgeEffs = new := by
+  refine ⟨?_, ?_, ?_⟩ <;> simp [purgeView, purgeEffs]
+
 /-! Non-vacuity -/
 example : WF { fileLen := 2064, index := [2064], listed := 1 } := by
   refine ⟨rfl, fun i hi => ?_⟩
